@@ -20,7 +20,6 @@ Notation emplace := (RVModel.emplace mva mvc smv).
 Notation erase := (RVModel.erase mva smv).
 Notation step := (RVModel.step mva mvc smv).
 Notation run := (RVModel.run mva mvc smv).
-Notation smv_id := (RVOps.smv_id smv).
 
 Lemma erase_post s first last : wf s -> first <= last -> last <= size s ->
   opost s (erase s first last) (firstn first (abs s) ++ skipn last (abs s)) 0.
@@ -160,20 +159,18 @@ Proof.
 Qed.
 
 (* ---- one step ------------------------------------------------------------------------------------------- *)
-Lemma step_post s o : wf s -> okb (size s) o = true -> (zero_insert o = true -> smv_id) ->
+Lemma step_post s o : wf s -> okb (size s) o = true ->
   opost s (step s o) (spec_step (abs s) o) (demand (size s) o).
 Proof.
-  intros W Hok Hz. unfold RVModel.step. rewrite Hok. cbn [negb].
-  destruct o; cbn [okb spec_step demand zero_insert] in *.
+  intros W Hok. unfold RVModel.step. rewrite Hok. cbn [negb].
+  destruct o; cbn [okb spec_step demand] in *.
   - apply emplace_back_post; auto.
   - apply pop_back_post; auto. apply Nat.ltb_lt; auto.
   - apply emplace_post; auto. apply Nat.leb_le; auto.
   - pose proof (insert_range_post mva mvc smv s i (repeat v n) ins_fill_end W) as H.
     rewrite repeat_length in H. apply H. + apply Nat.leb_le; auto.
-    + destruct n; [right; auto | left; simpl; congruence].
     + apply b_ins_fill_end.
   - apply insert_range_post; auto. + apply Nat.leb_le; auto.
-    + destruct vs; [right; auto | left; congruence].
     + apply b_insr_fill_end.
   - apply andb_prop in Hok. destruct Hok as [H1 H2]. apply erase_post; auto; apply Nat.leb_le; auto.
   - apply resize_post; auto. + apply b_resize_grow. + apply b_resize_rend.
@@ -191,25 +188,16 @@ Proof.
 Qed.
 
 (* ---- runs ------------------------------------------------------------------------------------------------ *)
-Definition zero_ok (ops : list op) : Prop := smv_id \/ forallb (fun o => negb (zero_insert o)) ops = true.
-
-Lemma zero_ok_cons o t : zero_ok (o :: t) -> (zero_insert o = true -> smv_id) /\ zero_ok t.
-Proof.
-  intros [H|H]; [split; auto; left; auto|]. simpl in H. apply andb_prop in H. destruct H as [H1 H2].
-  split; [|right; auto]. intros E. rewrite E in H1. discriminate.
-Qed.
-
-Lemma run_post : forall ops s, wf s -> valid (abs s) ops = true -> zero_ok ops ->
+Lemma run_post : forall ops s, wf s -> valid (abs s) ops = true ->
   wf (run s ops) /\ abs (run s ops) = fold_left spec_step ops (abs s) /\
   cap s <= cap (run s ops) /\ csize s <= csize (run s ops) /\ peak (abs s) ops <= cap (run s ops) /\
   (peak (abs s) ops <= cap s -> nalloc (run s ops) = nalloc s /\ cap (run s ops) = cap s).
 Proof.
-  induction ops as [|o t IH]; intros s W V Z; cbn [RVModel.run fold_left valid peak] in *.
+  induction ops as [|o t IH]; intros s W V; cbn [RVModel.run fold_left valid peak] in *.
   - repeat apply conj; auto; lia.
   - apply andb_prop in V. destruct V as [V1 V2]. rewrite abs_length in *.
-    destruct (zero_ok_cons _ _ Z) as [Z1 Z2].
-    destruct (step_post s o W V1 Z1) as (W1 & A1 & K1 & C1 & D1 & S1 & N1).
-    rewrite <- A1 in *. destruct (IH _ W1 V2 Z2) as (W2 & A2 & K2 & C2 & D2 & N2).
+    destruct (step_post s o W V1) as (W1 & A1 & K1 & C1 & D1 & S1 & N1).
+    rewrite <- A1 in *. destruct (IH _ W1 V2) as (W2 & A2 & K2 & C2 & D2 & N2).
     fold (run (step s o) t) in *.
     repeat apply conj; auto; try lia.
 Qed.
@@ -219,15 +207,14 @@ Notation step2 := (RVModel.step2 mva mvc smv).
 Notation run2 := (RVModel.run2 mva mvc smv).
 Definition wf2 (p : vec * vec) : Prop := wf (fst p) /\ wf (snd p).
 Definition abs2 (p : vec * vec) : list Z * list Z := (abs (fst p), abs (snd p)).
-Definition zero_ok2 (ops : list op2) : Prop := smv_id \/ forallb (fun o => negb (zero_insert2 o)) ops = true.
 
-Lemma step2_post p o : wf2 p -> ok2 (abs2 p) o = true -> (zero_insert2 o = true -> smv_id) ->
+Lemma step2_post p o : wf2 p -> ok2 (abs2 p) o = true ->
   wf2 (step2 p o) /\ abs2 (step2 p o) = spec_step2 (abs2 p) o.
 Proof.
-  destruct p as [a b]. intros [Wa Wb] Hok Hz. unfold abs2, wf2 in *. cbn [fst snd] in *.
-  destruct o; cbn [RVModel.step2 spec_step2 ok2 zero_insert2 fst snd] in *.
-  - rewrite abs_length in Hok. destruct (step_post a o Wa Hok Hz) as (W1 & A1 & _). rewrite A1. auto.
-  - rewrite abs_length in Hok. destruct (step_post b o Wb Hok Hz) as (W1 & A1 & _). rewrite A1. auto.
+  destruct p as [a b]. intros [Wa Wb] Hok. unfold abs2, wf2 in *. cbn [fst snd] in *.
+  destruct o; cbn [RVModel.step2 spec_step2 ok2 fst snd] in *.
+  - rewrite abs_length in Hok. destruct (step_post a o Wa Hok) as (W1 & A1 & _). rewrite A1. auto.
+  - rewrite abs_length in Hok. destruct (step_post b o Wb Hok) as (W1 & A1 & _). rewrite A1. auto.
   - auto.
   - destruct (assign_range_post a (abs b) Wa) as (W1 & A1 & _). rewrite A1. auto.
   - destruct (assign_range_post b (abs a) Wb) as (W1 & A1 & _). rewrite A1. auto.
@@ -235,15 +222,12 @@ Proof.
   - destruct (clear_post b Wb) as (W1 & A1 & _). rewrite A1. auto.
 Qed.
 
-Lemma run2_post : forall ops p, wf2 p -> valid2 (abs2 p) ops = true -> zero_ok2 ops ->
+Lemma run2_post : forall ops p, wf2 p -> valid2 (abs2 p) ops = true ->
   wf2 (run2 p ops) /\ abs2 (run2 p ops) = fold_left spec_step2 ops (abs2 p).
 Proof.
-  induction ops as [|o t IH]; intros p W V Z; cbn [RVModel.run2 fold_left valid2] in *; auto.
+  induction ops as [|o t IH]; intros p W V; cbn [RVModel.run2 fold_left valid2] in *; auto.
   apply andb_prop in V. destruct V as [V1 V2].
-  assert (Z1 : (zero_insert2 o = true -> smv_id) /\ zero_ok2 t).
-  { destruct Z as [H|H]; [split; auto; left; auto|]. simpl in H. apply andb_prop in H. destruct H as [H1 H2].
-    split; [|right; auto]. intros E. rewrite E in H1. discriminate. }
-  destruct Z1 as [Z1 Z2]. destruct (step2_post p o W V1 Z1) as (W1 & A1).
+  destruct (step2_post p o W V1) as (W1 & A1).
   rewrite <- A1 in *. apply IH; auto.
 Qed.
 
@@ -305,7 +289,7 @@ Proof.
   - intros j Hj. rewrite ltb_false by lia. auto.
 Qed.
 
-Lemma mcycle_post g ops : wf (inst g) -> valid (abs (inst g)) ops = true -> zero_ok ops ->
+Lemma mcycle_post g ops : wf (inst g) -> valid (abs (inst g)) ops = true ->
   let w := run (inst g) ops in let g' := mcycle g ops in
   wf (inst g') /\ abs (inst g') = [] /\ csize w <= csize (inst g') /\ csize w <= cap (inst g') /\
   meta g <= meta g' /\ interval g' = interval g /\
@@ -316,7 +300,7 @@ Lemma mcycle_post g ops : wf (inst g) -> valid (abs (inst g)) ops = true -> zero
    (interval g <= S (times g) /\ recreated g' = S (recreated g) /\ times g' = 0 /\
     meta g' = Nat.max (csize w) (meta g) /\ cap (inst g') = meta g' /\ csize (inst g') = meta g')).
 Proof.
-  intros W V Z. destruct (run_post ops (inst g) W V Z) as (W1 & _). cbn zeta.
+  intros W V. destruct (run_post ops (inst g) W V) as (W1 & _). cbn zeta.
   unfold RVModel.mcycle, mclear. cbn [inst meta times interval recreated]. rewrite b_mgr_recreate.
   fold (run (inst g) ops). set (w := run (inst g) ops) in *.
   destruct (Nat.leb_spec (interval g) (S (times g))); cbn [inst meta times interval recreated].
@@ -340,51 +324,42 @@ Proof.
   all: try (apply Nat.leb_le in Hok; lia).
 Qed.
 
-Lemma peak_le_csize : forall ops s, reserve_free ops = true -> wf s -> valid (abs s) ops = true -> zero_ok ops ->
+Lemma peak_le_csize : forall ops s, reserve_free ops = true -> wf s -> valid (abs s) ops = true ->
   peak (abs s) ops <= csize (run s ops).
 Proof.
-  induction ops as [|o t IH]; intros s R W V Z; cbn [RVModel.run fold_left valid peak reserve_free forallb] in *; [lia|].
+  induction ops as [|o t IH]; intros s R W V; cbn [RVModel.run fold_left valid peak reserve_free forallb] in *; [lia|].
   apply andb_prop in V. destruct V as [V1 V2]. apply andb_prop in R. destruct R as [R1 R2].
   apply Bool.negb_true_iff in R1.
-  destruct (zero_ok_cons _ _ Z) as [Z1 Z2].
   pose proof (demand_le_len (abs s) o R1 V1) as D.
   rewrite abs_length in V1.
-  destruct (step_post s o W V1 Z1) as (W1 & A1 & K1 & C1 & D1 & S1 & N1).
+  destruct (step_post s o W V1) as (W1 & A1 & K1 & C1 & D1 & S1 & N1).
   rewrite <- A1 in *. fold (run (step s o) t).
-  specialize (IH _ R2 W1 V2 Z2).
-  destruct (run_post t _ W1 V2 Z2) as (_ & _ & _ & C2 & _).
+  specialize (IH _ R2 W1 V2).
+  destruct (run_post t _ W1 V2) as (_ & _ & _ & C2 & _).
   rewrite !abs_length in *. assert (size (step s o) <= csize (step s o)) by (destruct W1; auto).
   lia.
 Qed.
 
-Lemma converged_no_growth g ops : wf (inst g) -> abs (inst g) = [] -> valid [] ops = true -> zero_ok ops ->
+Lemma converged_no_growth g ops : wf (inst g) -> abs (inst g) = [] -> valid [] ops = true ->
   let g1 := mcycle g ops in
   (recreated g1 = recreated g \/ reserve_free ops = true) ->
   nalloc (run (inst g1) ops) = nalloc (inst g1) /\ cap (run (inst g1) ops) = cap (inst g1).
 Proof.
-  intros W A V Z. cbn zeta. intros H.
+  intros W A V. cbn zeta. intros H.
   assert (V0 : valid (abs (inst g)) ops = true) by (rewrite A; auto).
-  destruct (mcycle_post g ops W V0 Z) as (W1 & A1 & C1 & K1 & M1 & I1 & D).
-  destruct (run_post ops (inst g) W V0 Z) as (Wr & _ & _ & _ & Pk & _). rewrite A in Pk.
+  destruct (mcycle_post g ops W V0) as (W1 & A1 & C1 & K1 & M1 & I1 & D).
+  destruct (run_post ops (inst g) W V0) as (Wr & _ & _ & _ & Pk & _). rewrite A in Pk.
   assert (V1 : valid (abs (inst (mcycle g ops))) ops = true) by (rewrite A1; auto).
-  destruct (run_post ops _ W1 V1 Z) as (_ & _ & _ & _ & _ & N). rewrite A1 in N. apply N.
+  destruct (run_post ops _ W1 V1) as (_ & _ & _ & _ & _ & N). rewrite A1 in N. apply N.
   destruct D as [(D1 & D2 & D3 & D4 & D5 & _) | (D1 & D2 & D3 & D4 & D5 & D6)].
   - lia.
   - destruct H as [H|H]; [lia|].
-    pose proof (peak_le_csize ops (inst g) H W V0 Z) as Pc. rewrite A in Pc. lia.
+    pose proof (peak_le_csize ops (inst g) H W V0) as Pc. rewrite A in Pc. lia.
 Qed.
 
 End Elem.
 
-(* ---- the zero-length insert: refinement fails when the element's self-move-assignment is destructive -------------------- *)
-Lemma zero_insert_refuted : exists (smv : Z -> Z) (ops : list op),
-  valid [] ops = true /\
-  abs (run (fun _ _ => 0%Z) (fun _ => 0%Z) smv empty_vec ops) <> fold_left spec_step ops [].
-Proof.
-  exists (fun _ => 0%Z), [AssignRange [1; 2; 3]%Z; InsertN 1 0 9%Z]. split; [reflexivity|].
-  vm_compute. discriminate.
-Qed.
-
+(* ---- non-vacuity ---- *)
 Lemma window_example :
   let s := run (fun s _ => s) (fun v => v) (fun v => v) empty_vec [AssignRange [1;2;3;4;5]%Z; Erase 2 5; InsertN 1 2 9%Z] in
   (size s, csize s, cap s, abs s, stale s, err s) = (4, 5, 5, [1; 9; 9; 2]%Z, [3]%Z, false).
@@ -400,45 +375,43 @@ Notation run2 := (RVModel.run2 mva mvc smv).
 Notation mcycle := (RVModel.mcycle mva mvc smv).
 
 Lemma rv_refines_list ops s : wf s -> valid (abs s) ops = true ->
-  ((forall v, smv v = v) \/ forallb (fun o => negb (zero_insert o)) ops = true) ->
   abs (run s ops) = fold_left spec_step ops (abs s).
-Proof. intros W V Z. apply (run_post mva mvc smv ops s W V Z). Qed.
+Proof. intros W V. apply (run_post mva mvc smv ops s W V). Qed.
 
 Lemma rv_refines_list2 ops a b : wf a -> wf b -> valid2 (abs a, abs b) ops = true ->
-  ((forall v, smv v = v) \/ forallb (fun o => negb (zero_insert2 o)) ops = true) ->
   (abs (fst (run2 (a, b) ops)), abs (snd (run2 (a, b) ops))) = fold_left spec_step2 ops (abs a, abs b).
-Proof. intros Wa Wb V Z. apply (run2_post mva mvc smv ops (a, b) (conj Wa Wb) V Z). Qed.
+Proof. intros Wa Wb V. apply (run2_post mva mvc smv ops (a, b) (conj Wa Wb) V). Qed.
 
 Lemma rv_inv ops s : wf s -> valid (abs s) ops = true ->
-  ((forall v, smv v = v) \/ forallb (fun o => negb (zero_insert o)) ops = true) ->
   let s' := run s ops in
   size s' <= csize s' /\ csize s' <= cap s' /\ err s' = false /\
   (forall j, j < csize s' -> exists v, cells s' j = Con v) /\ (forall j, csize s' <= j -> cells s' j = Raw) /\
   nctor s' = ndtor s' + csize s'.
-Proof. intros W V Z. destruct (run_post mva mvc smv ops s W V Z) as ([W1 W2 W3 W4 W5 W6] & _). cbn zeta. auto 10. Qed.
+Proof. intros W V. destruct (run_post mva mvc smv ops s W V) as ([W1 W2 W3 W4 W5 W6] & _). cbn zeta. auto 10. Qed.
 
 Lemma rv_inv2 ops a b : wf a -> wf b -> valid2 (abs a, abs b) ops = true ->
-  ((forall v, smv v = v) \/ forallb (fun o => negb (zero_insert2 o)) ops = true) ->
   wf (fst (run2 (a, b) ops)) /\ wf (snd (run2 (a, b) ops)).
-Proof. intros Wa Wb V Z. apply (run2_post mva mvc smv ops (a, b) (conj Wa Wb) V Z). Qed.
+Proof. intros Wa Wb V. apply (run2_post mva mvc smv ops (a, b) (conj Wa Wb) V). Qed.
 
 Lemma rv_capacity_never_shrinks ops s : wf s -> valid (abs s) ops = true ->
-  ((forall v, smv v = v) \/ forallb (fun o => negb (zero_insert o)) ops = true) ->
   cap s <= cap (run s ops) /\ csize s <= csize (run s ops).
-Proof. intros W V Z. destruct (run_post mva mvc smv ops s W V Z) as (_ & _ & K & C & _). auto. Qed.
+Proof. intros W V. destruct (run_post mva mvc smv ops s W V) as (_ & _ & K & C & _). auto. Qed.
 
 Lemma rv_ctor_dtor_balance ops s : wf s -> valid (abs s) ops = true ->
-  ((forall v, smv v = v) \/ forallb (fun o => negb (zero_insert o)) ops = true) ->
   let d := destroy_all (run s ops) in err d = false /\ nctor d = ndtor d /\ forall j, cells d j = Raw.
-Proof. intros W V Z. destruct (run_post mva mvc smv ops s W V Z) as (W1 & _). apply destroy_all_balance; auto. Qed.
+Proof. intros W V. destruct (run_post mva mvc smv ops s W V) as (W1 & _). apply destroy_all_balance; auto. Qed.
 
 Lemma rv_fits_no_alloc ops s : wf s -> valid (abs s) ops = true ->
-  ((forall v, smv v = v) \/ forallb (fun o => negb (zero_insert o)) ops = true) ->
   peak (abs s) ops <= cap s -> nalloc (run s ops) = nalloc s /\ cap (run s ops) = cap s.
-Proof. intros W V Z. apply (run_post mva mvc smv ops s W V Z). Qed.
+Proof. intros W V. apply (run_post mva mvc smv ops s W V). Qed.
 
 Lemma rv_peak_le_cap ops s : wf s -> valid (abs s) ops = true ->
-  ((forall v, smv v = v) \/ forallb (fun o => negb (zero_insert o)) ops = true) ->
   peak (abs s) ops <= cap (run s ops).
-Proof. intros W V Z. apply (run_post mva mvc smv ops s W V Z). Qed.
+Proof. intros W V. apply (run_post mva mvc smv ops s W V). Qed.
 End Export.
+
+(* the former counterexample (elements whose self-move-assignment is destructive): now a no-op *)
+Lemma zero_insert_example :
+  abs (run (fun _ _ => 0%Z) (fun _ => 0%Z) (fun _ => 0%Z) empty_vec [AssignRange [1; 2; 3]%Z; InsertN 1 0 9%Z; InsertRange 0 []])
+  = [1; 2; 3]%Z.
+Proof. vm_compute. reflexivity. Qed.
